@@ -8,7 +8,7 @@ import ast
 
 from ..core import AnalysisError, norm_stmt
 from ..rules import (Fn, guards, guard_dominates, names_in, strings_in, kwarg, is_none_test, inventory,
-                     enclosing_tries, handler_catches, handler_types, always_raises, raised_types)
+                     enclosing_tries, handler_catches, handler_types, always_raises, raised_types, if_chain, block_of)
 from ..cfg import target_names, root_name
 from .. import sym
 from ..sym import dotted
@@ -396,14 +396,12 @@ def acquisition_time(cx):
     cx.floor('TAGS', nops, 3, 'arithmetic operations in acquisition_time')
     # precedence chain: >1 time channels -> KeyError; one channel and a time step; start and end; else None
     chain = [s for s in body if isinstance(s, ast.If)]
-    ok = len(chain) == 1
+    ok = len(chain) >= 1
     if ok:
-        c = chain[0]
-        tests, bodies, cur = [c.test], [c.body], c
-        while len(cur.orelse) == 1 and isinstance(cur.orelse[0], ast.If):
-            cur = cur.orelse[0]
-            tests.append(cur.test)
-            bodies.append(cur.body)
+        i = [k for k, s_ in enumerate(body) if s_ is chain[0]][0]
+        links, els = if_chain(body, i)
+        tests = [t for t, b_, s_ in links]
+        bodies = [b_ for t, b_, s_ in links]
         idx = None
         for st in body:
             if isinstance(st, ast.Assign) and isinstance(st.value, ast.ListComp):
@@ -413,16 +411,16 @@ def acquisition_time(cx):
             sym.norm(tests[1]) in (sym.norm('len(%s) == 1 and self.time_step is not None' % idx),
                                    sym.norm('len(%s) == 1 and self._time_step is not None' % idx)) and \
             sym.norm(tests[2]) == sym.norm('self._acquisition_start_time is not None and self._acquisition_end_time is not None') and \
-            len(cur.orelse) == 1 and isinstance(cur.orelse[0], ast.Return) and sym.norm(cur.orelse[0].value) == ('const', None) and \
-            all(isinstance(b[-1], (ast.Return, ast.Raise)) for b in bodies)
+            len(els) == 1 and isinstance(els[0], ast.Return) and sym.norm(els[0].value) == ('const', None) and \
+            all(isinstance(b_[-1], (ast.Return, ast.Raise)) for b_ in bodies)
     fn.ob('TAGS', 'duration precedence is one chain: two time channels -> KeyError; time channel and time step; start and end times; else None',
           ok, chain[0] if chain else fn.ast, key='precedence')
     inventory(fn, 'FORMULA', [
         ('time channels are found by case-insensitive name', "IDX = [I for I, CH in enumerate(self.channels) if CH.lower() == 'time']"),
         ('the time channel is addressed by its name', 'TC = self.channels[IDX[0]]'),
         ('duration from the time channel = (last - first) * time step', 'return (self[-1, TC] - self[0, TC]) * self.time_step'),
-        ('duration from start/end = seconds of their difference', 'return DT.total_seconds()'),
-    ], ['IDX', 'I', 'CH', 'TC', 'DT'])
+        ('duration from start/end = seconds of (end - start)', 'return (ET - ST).total_seconds()'),
+    ], ['IDX', 'I', 'CH', 'TC', 'ET', 'ST'])
     return fn
 
 
@@ -430,10 +428,8 @@ def acquisition_time(cx):
 # TABLE: keyword templates and derived values in __new__
 
 NEW_ITEMS = [
-    ('time step from $TIMESTEP', "TS = float(F.text['$TIMESTEP'])"),
-    ('time step from the legacy TIMETICKS keyword, in milliseconds', "TS = float(F.text['TIMETICKS']) / 1000.0"),
-    ('$TIMESTEP has priority', "if '$TIMESTEP' in F.text:"),
-    ('TIMETICKS is the fallback', "if 'TIMETICKS' in F.text:"),
+    ('time step from $TIMESTEP (priority), else from the legacy TIMETICKS keyword in milliseconds, else absent',
+     "TS = float(F.text['$TIMESTEP']) if '$TIMESTEP' in F.text else (float(F.text['TIMETICKS']) / 1000.0 if 'TIMETICKS' in F.text else None)"),
     ('data type is $DATATYPE', "DTYPE = F.text.get('$DATATYPE')"),
     ('date from $DATE', "ADATE = cls._parse_date_string(F.text.get('$DATE'))"),
     ('start time from $BTIM', "ASTART = cls._parse_time_string(F.text.get('$BTIM'))"),
@@ -461,8 +457,7 @@ NEW_ITEMS = [
     ('FlowJo fallback keyword', "CAG = F.text.get('CytekP{:02d}G'.format(I3))"),
     ('gain converted to float', 'CAG = float(CAG)'),
     ('gain list in channel order', 'AG.append(CAG)'),
-    ('label from $PnS', "CL = F.text.get('$P{}S'.format(I4), None)"),
-    ('label list in channel order', 'LBL.append(CL)'),
+    ('labels from $PnS for n = 1..$PAR, in channel order', "LBL = [F.text.get('$P{}S'.format(I4), None) for I4 in range(1, NCH + 1)]"),
     ('stored: text', 'OBJ._text = F.text'),
     ('stored: analysis', 'OBJ._analysis = F.analysis'),
     ('stored: data type', 'OBJ._data_type = DTYPE'),
@@ -477,7 +472,7 @@ NEW_ITEMS = [
     ('stored: resolutions', 'OBJ._resolution = RES'),
 ]
 NEW_METAS = {m: m for m in ['F', 'TS', 'DTYPE', 'ADATE', 'ASTART', 'AEND', 'NCH', 'CHS', 'PNR', 'CI', 'RNG', 'RES', 'CDV', 'DV',
-                            'CAG', 'AG', 'CL', 'LBL', 'OBJ']}
+                            'CAG', 'AG', 'LBL', 'OBJ']}
 for _i in ('I1', 'I2', 'I3', 'I4'):
     NEW_METAS[_i] = 'I'
 
@@ -490,7 +485,7 @@ def new_table(cx):
     if nch:
         loops = [f for f in fn.stmts(ast.For) if 'range' in ast.unparse(f.iter)]
         bad = [f for f in loops if sym.norm(f.iter) != sym.norm('range(1, %s + 1)' % nch[1])]
-        fn.ob('TABLE', 'every per-channel loop runs over parameters 1..$PAR', not bad and len(loops) >= 4, bad[0] if bad else fn.ast,
+        fn.ob('TABLE', 'every per-channel loop runs over parameters 1..$PAR', not bad and len(loops) >= 3, bad[0] if bad else fn.ast,
               detail='' if not bad else norm_stmt(bad[0]), key='loops')
     # tuples
     for m in ('DV', 'AG', 'LBL', 'RES'):
@@ -505,9 +500,8 @@ PARSE_TIME_ITEMS = [
     ('absent keyword -> absent time', 'if TSTR is None:'),
     ('fields separated by colons', "TL = TSTR.split(':')"),
     ('three fields: hh:mm:ss or hh:mm:ss.cc', 'if len(TL) == 3:'),
-    ('fraction in 1/100 s marked by a dot in the seconds field', "if '.' in TL[2]:"),
-    ('the dot becomes the fraction separator', "TSTR = TSTR.replace('.', ':')"),
-    ('no fraction: zero fraction appended', "TSTR = TSTR + ':0'"),
+    ('fraction in 1/100 s marked by a dot in the seconds field: the dot becomes the separator; without a fraction a zero one is appended',
+     "TSTR = TSTR.replace('.', ':') if '.' in TL[2] else TSTR + ':0'"),
     ('four fields: hh:mm:ss:tt with tt in 1/60 s', 'if len(TL) == 4:'),
     ('tt/60 s converted to zero-padded microseconds', "TL[3] = '{:06d}'.format(int(float(TL[3]) * 1000000.0 / 60))"),
     ('fields re-joined', "TSTR = ':'.join(TL)"),
